@@ -23,7 +23,7 @@ replaces it (`TaskQueue.add` in RT; NRT after repair D12).
 Routine bodies: `yield d`, yield a non-number (`hang`), `log`, `send`, `spawn r clock`
 (create if needed — inheriting the creator's random generator — and `play(clock, quant=0)`),
 `setTempo i x`, `pause/resume/stop r` (no-ops on a routine not yet created), `wait/signal c`,
-`seed n`, `draw`.
+`seed n`, `draw`, `pull r` (`r.next()` on a sub-stream routine from inside the body).
 Core Lean only (loaded by the drivers of C05 and C10).
 -/
 namespace Sc3Verif.C05
@@ -66,6 +66,7 @@ inductive Act where
   | signal (c : Nat)
   | seed (n : Nat)
   | draw
+  | pull (r : Nat)
 deriving Repr, DecidableEq, Inhabited
 
 /-- Trace events.  `secs` are logical seconds; `beats` are on the clock that woke the routine. -/
@@ -92,6 +93,7 @@ structure Rt where
   created : Bool := false
   gen : Nat := 0                 -- which random generator object it draws from
   startBeats : Rat := 0          -- ghost: beats of its clock at which `play` scheduled it
+  sub : Bool := false            -- used as a sub-stream: pulled with `next()` from another body
 deriving Repr, Inhabited
 
 structure Cond where
@@ -190,6 +192,35 @@ def S.schedAll (s : S) : List Nat → S
   | [] => s
   | r :: rs => (s.schedNow (s.rts r).clock r).schedAll rs
 
+/-- A sub-stream routine `r` (never played on a clock) is pulled with `r.next()` from inside
+    another routine's body: it runs to its next `yield` (any value) or to its end.  Its body may
+    seed itself and draw; other actions are not used in sub-streams and are skipped. -/
+def runSub (s : S) (r : Nat) : List Act → S
+  | [] => s.setRt r { s.rts r with state := .done, clock := .sys }
+  | a :: rest =>
+    let s := s.bumpPc r
+    match a with
+    | .yield _ => s
+    | .seed n => runSub (s.setRt r { s.rts r with gen := n }) r rest
+    | .draw =>
+      let g := (s.rts r).gen
+      runSub ({ s.emit (.draw r g (s.draws g)) with
+                draws := fun j => if j = g then s.draws g + 1 else s.draws j }) r rest
+    | _ => runSub s r rest
+
+/-- `r.next()` issued by the running routine `by_` on a routine that is only ever used as a
+    sub-stream (created here if needed, inheriting the caller's generator).  Routines that are or
+    were played on a clock, the caller itself, and Done / Paused sub-streams are left alone
+    (`StopStream` / `PausedStream` / `RoutineException` are caught by the caller). -/
+def S.pull (s : S) (by_ r : Nat) : S :=
+  if r = by_ then s
+  else
+    let s := s.create by_ r
+    if (s.rts r).state = .init ∨ ((s.rts r).sub = true ∧ (s.rts r).state = .suspended) then
+      runSub (s.setRt r { s.rts r with state := .suspended, sub := true }) r
+        ((s.rts r).script.drop (s.rts r).pc)
+    else s
+
 /-- The body of routine `x.rid`, woken by the task `(x.clk, x.beats)`, executes the remaining
     actions up to its next yield / end. -/
 def runActs (s : S) (x : Ctx) : List Act → S
@@ -235,6 +266,7 @@ def runActs (s : S) (x : Ctx) : List Act → S
       let g := (s.rts x.rid).gen
       runActs ({ s.emit (.draw x.rid g (s.draws g)) with
                  draws := fun j => if j = g then s.draws g + 1 else s.draws j }) x rest
+    | .pull r => runActs (s.pull x.rid r) x rest
 
 /-- Wake the routine of pending task `e` (already removed from `pend`): logical time := its
     scheduled time; Paused / Done routines raise (`PausedStream` / `StopStream`) and are dropped. -/
